@@ -10,6 +10,7 @@ import (
 	"errors"
 	"flag"
 	"fmt"
+	"io"
 	"math"
 	"os"
 	"sync/atomic"
@@ -385,6 +386,84 @@ func main() {
 				}
 			}
 		}
+		// a state machine that answers with a value AND a payload, hosted next to the others; stopped and started again under
+		// the same long-lived facade: Propose through the facade hands back what the local call hands back, before, while
+		// and after
+		{
+			eid := uint64(1000*(s+1) + 99)
+			ecfg := config.Config{ReplicaID: 1, ShardID: eid, ElectionRTT: 10, HeartbeatRTT: 1}
+			start := func() error {
+				return h.NH.StartReplica(map[uint64]string{1: h.Addr}, false, func(c, n uint64) sm.IStateMachine { return &echoSM{} }, ecfg)
+			}
+			waitLeader := func() {
+				for i := 0; i < 3000; i++ {
+					if _, _, ok, err := h.NH.GetLeaderID(eid); err == nil && ok {
+						return
+					}
+					time.Sleep(3 * time.Millisecond)
+				}
+			}
+			eops := append(append([]interface{}{}, ops[:1]...), map[string]interface{}{"op": "echo-shard", "sid": eid})
+			efail := func(clause, sig, what string) {
+				run.Violate(hx.Violation{Property: "C19", Clause: clause, Signature: sig, What: what, Seq: s, Ops: eops})
+			}
+			compare := func(phase string, cmd []byte) {
+				heartbeat.Store(beat{time.Now(), s, fmt.Sprintf("sequence %d: Propose on the value-and-payload shard %d (%s)", s, eid, phase), eops})
+				noop := h.NH.GetNoOPSession(eid)
+				lres, lerr := h.NH.SyncPropose(ctx(), noop, cmd)
+				var fres *mr.RaftResponse
+				var ferr error
+				if func() (c bool) {
+					defer func() {
+						if r := recover(); r != nil {
+							c = true
+						}
+					}()
+					fres, ferr = api.Propose(ctx(), &mr.RaftProposal{Session: drummer.ToPBSession(noop), Data: cmd})
+					return false
+				}() {
+					efail("every_error_mapped", "propose-crashes", fmt.Sprintf("%s: Propose through the facade crashed; the local call returns (%v, %v)", phase, lres, lerr))
+					return
+				}
+				run.Count("c19:value_and_payload_" + phase)
+				switch {
+				case lerr == nil && ferr != nil:
+					efail("facade_transparent", "propose-fails-where-local-succeeds", fmt.Sprintf("%s: the local SyncPropose on shard %d succeeds (value %d), Propose through the facade fails: %v", phase, eid, lres.Value, ferr))
+				case lerr != nil && ferr == nil:
+					efail("every_error_mapped", "propose-failure-hidden", fmt.Sprintf("%s: the local SyncPropose fails with %v, the facade reports success", phase, lerr))
+				case lerr == nil && fres.Result != lres.Value:
+					// (the facade's answer carries the value; the payload of a result is not part of its wire contract. Which
+					// error a stopped shard gives - not found or closed - depends on how far the NodeHost got with the stop, so
+					// error codes are not compared here)
+					efail("facade_transparent", "propose-result", fmt.Sprintf("%s: the state machine answered value %d (with a payload of %d bytes); Propose through the facade returned result %d", phase, lres.Value, len(lres.Data), fres.Result))
+				}
+			}
+			if err := start(); err == nil {
+				waitLeader()
+				compare("running", []byte("first command"))
+				compare("running", []byte{})
+				if err := h.NH.StopShard(eid); err == nil {
+					compare("stopped", []byte("while stopped"))
+					// the stop completes in the background: starting the shard again is refused until it has
+					var rerr error
+					for i := 0; i < 400; i++ {
+						if rerr = start(); rerr == nil {
+							break
+						}
+						time.Sleep(10 * time.Millisecond)
+					}
+					if rerr == nil {
+						waitLeader()
+						compare("restarted", []byte("after the restart"))
+						compare("restarted", []byte("and once more"))
+					} else {
+						run.Count("c19:inconclusive_restart")
+					}
+				}
+			} else {
+				run.Count("c19:inconclusive_echo_start")
+			}
+		}
 		run.Nontrivial(fmt.Sprintf("%d", s))
 		if s == 0 {
 			run.Sample(ops[:min(len(ops), 6)])
@@ -394,6 +473,28 @@ func main() {
 	}
 	_ = client.NoOPSeriesID
 }
+
+// echoSM answers every update with a value and a payload (all the state machines shipped in tests/ answer with a value only)
+type echoSM struct{ n uint64 }
+
+func (e *echoSM) Update(ent sm.Entry) (sm.Result, error) {
+	e.n++
+	return sm.Result{Value: uint64(len(ent.Cmd)) + 7, Data: append([]byte("echo:"), ent.Cmd...)}, nil
+}
+func (e *echoSM) Lookup(q interface{}) (interface{}, error) { return []byte{}, nil }
+func (e *echoSM) SaveSnapshot(w io.Writer, fc sm.ISnapshotFileCollection, done <-chan struct{}) error {
+	_, err := w.Write([]byte{byte(e.n)})
+	return err
+}
+func (e *echoSM) RecoverFromSnapshot(r io.Reader, files []sm.SnapshotFile, done <-chan struct{}) error {
+	b := make([]byte, 1)
+	if _, err := io.ReadFull(r, b); err != nil {
+		return err
+	}
+	e.n = uint64(b[0])
+	return nil
+}
+func (e *echoSM) Close() error { return nil }
 
 func min(a, b int) int {
 	if a < b {
